@@ -27,7 +27,7 @@ ASSUMPTIONS = ["now in [0, 1e15] us since the epoch, align_to in [-1e15, 2e15] u
 BOUNDS = {"quick": "(a) alignment for every now/align_to/period; (b) 3 series (one added after the first tick) x 4 ticks; sink failure at a symbolic tick followed by removal and restart",
           "thorough": "(b) 4 series x 6 ticks, failures at two ticks"}
 OUTSIDE = "the real frequenz.channels.Timer and the wall clock; MovingWindow's own resampler wiring"
-BUDGET = {"quick": 300, "thorough": 1200}
+BUDGET = {"quick": 300, "thorough": 600}
 PUS = 1_000_000
 
 
